@@ -284,7 +284,16 @@ func (g *gen) routeEntryFor(hostport string, extra bool) string {
 	return s
 }
 
+type relayForce struct {
+	li      int
+	proto   string
+	srcIP   string
+	srcPort int
+	conn    string
+}
+
 type relayGenOpts struct {
+	force     *relayForce
 	focus     string
 	nMsgs     int
 	rich      bool // full-width extension headers and bodies (C01)
@@ -304,6 +313,10 @@ func genRequest(g *gen, c *Cfg, o *relayGenOpts, learnedHosts []string) Op {
 	}
 	srcIP := topo.uas[g.intn(len(topo.uas))]
 	srcPort := g.pick2(5060, 5060, 5090, 40000+g.intn(1000))
+	if o.force != nil {
+		li, proto, srcIP, srcPort = o.force.li, o.force.proto, o.force.srcIP, o.force.srcPort
+		l = c.Listens[li]
+	}
 	keep := c.keepNextHop()
 	_ = keep
 
@@ -536,6 +549,9 @@ func genRequest(g *gen, c *Cfg, o *relayGenOpts, learnedHosts []string) Op {
 		if g.chance(30) {
 			op.Conn += "-" + id // a connection of its own
 		}
+		if o.force != nil {
+			op.Conn = o.force.conn
+		}
 	}
 	return op
 }
@@ -649,6 +665,27 @@ func genRelayPlan(seed uint64, tier string, focus string) *Plan {
 		o.rich = g.chance(50)
 		o.responses = true
 	}
+	if focus == "C01" && g.chance(25) {
+		// pipelined TCP: several requests with bodies back to back on one connection,
+		// processed while later bytes are already being read
+		for li, l := range p.Cfg.Listens {
+			if l.TCP == 0 {
+				continue
+			}
+			o.force = &relayForce{li: li, proto: "tcp", srcIP: topo.uas[g.intn(len(topo.uas))], srcPort: 40000 + g.intn(1000), conn: "pipe"}
+			o.maxBody = 3000
+			o.maxVal = 400
+			n := 4 + g.intn(10)
+			for i := 0; i < n; i++ {
+				op := genRequest(g, &p.Cfg, o, nil)
+				op.Settle = false
+				p.Ops = append(p.Ops, op)
+			}
+			p.Ops[len(p.Ops)-1].Settle = true
+			p.Variant = "tcp-pipeline"
+			return p
+		}
+	}
 	var learned []string
 	var tcpRouted []string
 	burst := g.chance(45)
@@ -723,6 +760,8 @@ type relayState struct {
 	burstTaught map[string]bool        // hosts taught by messages of the current burst
 	done        map[string]*judgedReq  // per request id: what was relayed (for answers and follow-ups)
 	connOf      map[string]int         // request id -> inbound connection id (TCP ingress)
+	batch       map[*simnet.TCPEnd][]byte
+	batchOrder  []*simnet.TCPEnd
 }
 
 type judgedReq struct {
@@ -753,6 +792,7 @@ func execRelay(t *testing.T, p *Plan) *Result {
 				}
 				pending = append(pending, op)
 				if op.Settle {
+					st.flushBatches()
 					if !w.K.Settle(10 * time.Second) {
 						break
 					}
@@ -766,6 +806,7 @@ func execRelay(t *testing.T, p *Plan) *Result {
 				break
 			}
 		}
+		st.flushBatches()
 		if !w.dead() && w.K.Settle(10*time.Second) {
 			st.judgeBurst(pending)
 		}
@@ -833,10 +874,32 @@ func (st *relayState) inject(op *Op) bool {
 	st.connOf[op.ID] = c.ID
 	if len(op.Cuts) > 0 {
 		c.WriteCuts(op.Data, op.Cuts)
-	} else {
-		c.Write(op.Data)
+		return true
+	}
+	// messages of one burst on one connection are pipelined: they arrive
+	// together (one segment), at the same instant as the rest of the burst, so
+	// that the proxy is still busy with one while the next is being read
+	if st.batch == nil {
+		st.batch = map[*simnet.TCPEnd][]byte{}
+	}
+	if _, ok := st.batch[c]; !ok {
+		st.batchOrder = append(st.batchOrder, c)
+	}
+	st.batch[c] = append(st.batch[c], op.Data...)
+	if op.Settle {
+		st.flushBatches()
 	}
 	return true
+}
+
+func (st *relayState) flushBatches() {
+	for _, c := range st.batchOrder {
+		if len(st.batch[c]) > 0 {
+			c.WriteExact(st.batch[c], 100*time.Microsecond)
+		}
+	}
+	st.batch = nil
+	st.batchOrder = nil
 }
 
 func (st *relayState) startBurst() {
